@@ -316,10 +316,88 @@ func hasCycle(o tengo.Object, stack map[tengo.Object]bool, depth int) bool {
 	return false
 }
 
+// neverEndingWithDeadContext: a script that never ends by itself, run with a context that is already cancelled or
+// expired when the call is made. The call must return (the only thing that can end this run is the cancellation), and the
+// object must stay usable. The instruction budget of the probe is what keeps the harness itself from hanging: a run that
+// uses it up although the context was dead from the start is re-run twice before it counts (the first instructions of a
+// run may legitimately be dispatched before the caller's goroutine delivers the abort).
+func (c *c05) neverEndingWithDeadContext(r *fw.Rec, rng *rand.Rand) {
+	src := pick(rng, []string{"for { }", "n := 0; for { n++ }", "f := func(x) { return f(x + 1) }; h := f(0)", "f := func() { f() }; f()", "a := [1, 2, 3]; for { for v in a { a[0] = v } }",
+		"g := func() { for { } }; g()", "m := import(\"hostile\"); m.spin()"})
+	exhausted := 0
+	var lastErr error
+	for attempt := 0; attempt < 3; attempt++ {
+		s := tengo.NewScript([]byte(src))
+		mm := stdModules()
+		mm.AddSourceModule("hostile", []byte("export {spin: func() { for { } }}\n"))
+		s.SetImports(mm)
+		cp, err := s.Compile()
+		if err != nil {
+			r.Inc("harness-compile-error")
+			return
+		}
+		ctx, cancel := context.WithCancel(context.Background())
+		cancel()
+		if rng.Intn(2) == 0 {
+			ctx, cancel = context.WithDeadline(context.Background(), time.Now().Add(-time.Hour))
+			defer cancel()
+		}
+		ps := &probeState{budget: 30_000_000}
+		installProbe(ps)
+		done := make(chan struct{})
+		viaScript := rng.Intn(3) == 0
+		go func() {
+			lastErr = safely(func() error {
+				if viaScript {
+					_, e := s.RunContext(ctx)
+					return e
+				}
+				return cp.RunContext(ctx)
+			})
+			close(done)
+		}()
+		detail := map[string]interface{}{"source": src, "context": "cancelled / expired before the call", "via_Script.RunContext": viaScript}
+		switch fw.WaitOrHang(done, 50*time.Second) {
+		case "hang":
+			removeProbe()
+			r.Violate("no-return:dead-context", "RunContext with an already cancelled context did not return", detail)
+			panic("verif: worker abandoned after a hang")
+		case "inconclusive":
+			fw.AbandonInconclusive("RunContext had not returned after 1000 s on a loaded machine")
+		}
+		removeProbe()
+		r.Eval()
+		if p, ok := isPanic(lastErr); ok && !ps.aborted {
+			detail["stack"] = trunc(p.stack, 2500)
+			r.Violate("panic-reached-host:"+firstWord(p.Error()), "a panic reached the caller of RunContext: "+p.Error(), detail)
+			return
+		}
+		if !ps.aborted {
+			// it came back on its own: usable afterwards?
+			live := make(chan struct{})
+			go func() { _ = cp.Get("n"); _ = cp.GetAll(); _ = cp.Clone(); close(live) }()
+			if fw.WaitOrHang(live, 50*time.Second) == "hang" {
+				r.Violate("unusable-after-run:deadlock", "Get/GetAll/Clone after a cancelled run did not return (lock left held?)", detail)
+				panic("verif: worker abandoned after a hang")
+			}
+			r.Inc("dead-context-returned")
+			r.Distinct("dead-context", src)
+			return
+		}
+		exhausted++
+	}
+	r.Violate("no-return:dead-context", fmt.Sprintf("a never-ending script run with an already cancelled context was not stopped: %d of 3 attempts used up the whole budget of 3*10^7 instructions (only the harness's own budget ended them)", exhausted),
+		map[string]interface{}{"source": src, "last_error": fmt.Sprint(lastErr)})
+}
+
 func (c *c05) RunCase(r *fw.Rec, cs fw.Case) {
 	rng := cs.Rng("c05")
 	if cs.Index < len(c05CyclicProbes) {
 		c.cyclicProbe(r, cs.Index)
+		return
+	}
+	if cs.Index%50 == 33 {
+		c.neverEndingWithDeadContext(r, rng)
 		return
 	}
 	var src, mod string
@@ -640,7 +718,7 @@ func (c *c05) cyclicProbe(r *fw.Rec, i int) {
 }
 
 func (c *c05) Finish(m *fw.Merged, tier string) {
-	for _, k := range []string{"kind:atom", "kind:generated", "outcome:error", "outcome:ok", "post-run-checks", "cyclic-probes", "recovered-after-failed-run", "entry:Compiled.RunContext(Background)", "entry:Compiled.RunContext(WithCancel)", "entry:Script.RunContext(Background)", "entry:Script.RunContext(WithCancel)"} {
+	for _, k := range []string{"kind:atom", "kind:generated", "outcome:error", "outcome:ok", "post-run-checks", "cyclic-probes", "dead-context-returned", "recovered-after-failed-run", "entry:Compiled.RunContext(Background)", "entry:Compiled.RunContext(WithCancel)", "entry:Script.RunContext(Background)", "entry:Script.RunContext(WithCancel)"} {
 		if m.Counters[k] == 0 {
 			m.Fail("never observed: " + k)
 		}
